@@ -27,6 +27,10 @@ type gfState struct {
 	leaveFault bool
 	killed     bool
 
+	watchAPI string // the api whose first request closes watchCh
+	watchCh  chan struct{}
+	wOnce    sync.Once
+
 	hb        int32
 	commitReq chan struct{}
 	cOnce     sync.Once
@@ -446,6 +450,32 @@ func runGF(sc scen) result {
 			closeDelay = killAt + ms(rr(rng, 20, 200))
 		}
 		p.callers = rr(rng, 0, 2)
+	case "late-reply-reader":
+		// Close (or the end of a call's context) while a request of the Reader is in flight;
+		// the fake answers it 2..4 x later than the Close comes
+		ft.add("late-answer")
+		ft.add("late-answer-family")
+		ft.add("broker=slow")
+		api := []string{"fetch", "fetch", "listoffsets"}[rng.Intn(3)]
+		if isG {
+			api = []string{"join", "sync", "fetch", "findcoordinator"}[rng.Intn(4)]
+		}
+		ft.add("late-api=" + apiShort[api])
+		closeDelay = ms(rr(rng, 10, 40))
+		lateBy := closeDelay * time.Duration(rr(rng, 2, 4))
+		st.watchAPI, st.watchCh = api, make(chan struct{})
+		st.fault = func(a string, n int) groupfake.Fault {
+			if a == api {
+				return groupfake.Fault{Delay: lateBy}
+			}
+			return groupfake.Fault{}
+		}
+		nrec0 = rr(rng, 3, 10)
+		p.callers = rr(rng, 0, 2)
+		p.kinds = "f"
+		wNever, wAfter, wBefore = 1, 3, 0
+		cancelLo, cancelHi = 10, 40
+		trig = "req"
 	default:
 		panic("unknown kind " + kind)
 	}
@@ -483,6 +513,9 @@ func runGF(sc scen) result {
 			st.cOnce.Do(func() { close(st.commitReq) })
 		case "fetch":
 			st.fOnce.Do(func() { close(st.fetchReq) })
+		}
+		if st.watchAPI == api {
+			st.wOnce.Do(func() { close(st.watchCh) })
 		}
 		st.mu.Lock()
 		defer st.mu.Unlock()
@@ -632,6 +665,10 @@ func runGF(sc scen) result {
 			}
 		case "commitreq":
 			if !waitCh(ms(600), st.commitReq) {
+				ft.add("trigger-timeout")
+			}
+		case "req":
+			if !waitCh(fallback, st.watchCh) {
 				ft.add("trigger-timeout")
 			}
 		case "late":
